@@ -27,7 +27,7 @@ def random_case(prop, rng, tier):
                 t['custom'][k] = rng.choice([1, 2.5, True, None, 'txt'] + STRS[:8])
         tasks.append(t)
     links = [[rng.randrange(n), rng.randrange(n)] for _ in range(rng.randrange(0, n + 2))]
-    return {'tasks': tasks, 'links': links, 'hand': rng.choice([None, 'bom', 'perm', 'bom+perm'])}
+    return {'tasks': tasks, 'links': links, 'hand': rng.choice([None, 'bom', 'perm', 'bom+perm', 'nomin', 'bom+perm+nomin'])}
 
 
 def build(case):
@@ -71,7 +71,7 @@ def rec_of(t):
             'preds': [str(p.id) for p in t.predecessors], 'custom': custom}
 
 
-def norm_task(t):
+def norm_task(t, drop_min=False):
     """comparable description of a task: C13's notion of equality (None / '' equal, custom values as strings)"""
     e = lambda x: None if x in (None, '') else x
     custom = {}
@@ -82,7 +82,7 @@ def norm_task(t):
         if s not in (None, ''):
             custom[k] = s
     return [t.id, None if t.parent is None else t.parent.id, [c.id for c in t.children], [p.id for p in t.predecessors], e(t.name), e(t.resource),
-            t.start, t.end, t.estimate, t.spent, bool(t.milestone), t.min_start, sorted(custom.items())]
+            t.start, t.end, t.estimate, t.spent, bool(t.milestone), None if drop_min else t.min_start, sorted(custom.items())]
 
 
 def forest_of(w):
@@ -122,12 +122,21 @@ def execute(prop, case):
                     order = list(range(len(rows[0])))
                     order = order[1:] + order[:1]
                     rows = [[r[i] for i in order] for r in rows]
+                nomin = 'nomin' in case['hand'] and rows and 'min_start' in rows[0]
+                if nomin:
+                    # a file of an earlier version: no min_start column at all (every task then has no min_start)
+                    k = rows[0].index('min_start')
+                    rows = [r[:k] + r[k + 1:] for r in rows]
                 with open(ph, 'w', encoding='utf-8', newline='\n') as f:
                     if 'bom' in case['hand']:
                         f.write('﻿')
                     csv.writer(f, delimiter=';').writerows(rows)
                 wh = read_csv(ph)
-                py['hand'] = [norm_task(t) for t in wh.tasks] == [norm_task(t) for t in w3.tasks]
+                if nomin:
+                    py['hand'] = all(t.min_start is None for t in wh.tasks) and \
+                        [norm_task(t, drop_min=True) for t in wh.tasks] == [norm_task(t, drop_min=True) for t in w3.tasks]
+                else:
+                    py['hand'] = [norm_task(t) for t in wh.tasks] == [norm_task(t) for t in w3.tasks]
                 texth = open(ph, encoding='utf-8', newline='').read()
                 rec['texts'].append(texth)
                 rec['reread_hand'] = [rec_of(t) for t in wh.tasks]
